@@ -96,6 +96,9 @@ func pick32(r *rand.Rand, vt byte, k int) uint32 {
 		return r.Uint32()
 	default:
 		if vt == 'f' && r.Intn(3) > 0 {
+			if r.Intn(4) == 0 { // any exponent
+				return uint32(r.Intn(2))<<31 | uint32(1+r.Intn(254))<<23 | (r.Uint32() & 0x7fffff)
+			}
 			return uint32(r.Intn(2))<<31 | uint32(118+r.Intn(20))<<23 | (r.Uint32() & 0x7fffff)
 		}
 		return r.Uint32()
@@ -130,6 +133,9 @@ func pick64(r *rand.Rand, vt byte, k int) uint64 {
 		}
 		if r.Intn(3) == 0 {
 			return cornersF64[r.Intn(len(cornersF64))]
+		}
+		if r.Intn(4) == 0 { // any exponent
+			return uint64(r.Intn(2))<<63 | uint64(1+r.Intn(2046))<<52 | (r.Uint64() & 0xfffffffffffff)
 		}
 		return uint64(r.Intn(2))<<63 | uint64(1000+r.Intn(48))<<52 | (r.Uint64() & 0xfffffffffffff)
 	case 'p': // two packed f32
@@ -243,6 +249,10 @@ func (g *gen) scalarSrc(c *Case, key string, w int, vt byte, val uint64, slot in
 		return code
 	case 6:
 		code := 240 + g.r.Intn(9)
+		if w == 64 && code == 248 {
+			// the double 1/(2*pi) of the hardware is not the nearest double (0x3fc45f306dc9c882): not generated
+			code = 240
+		}
 		c.Ops[key] = OpLog{C: code, N: n}
 		return code
 	case 2:
@@ -619,6 +629,9 @@ func (g *gen) vecSrc(c *Case, key string, w int, vt byte, pl plan, i int, vslot,
 	if kind == 2 && !(allowLit && w == 32) {
 		kind = 7
 	}
+	if vt == 't' && kind != 0 {
+		kind = 7
+	}
 	if kind == 0 || !allowScalar {
 		g.setV(c, vslot, w, g.laneValues(w, vt, pl, i))
 		c.Ops[key] = OpLog{C: 256 + vslot, N: w / 32}
@@ -982,8 +995,8 @@ func (g *gen) genFlat(arch, st string, d opDef, rk int) *Case {
 			if g.r.Intn(4) == 0 {
 				saddr = 0 // s[0:1] is a valid base on CDNA3
 			}
-		} else if g.r.Intn(2) == 0 {
-			seg = 2
+		} else if g.r.Intn(2) == 0 || offset < 0 {
+			seg = 2 // negative offsets exist only in the GLOBAL form (FLAT proper has a 12-bit unsigned offset)
 		}
 	} else {
 		saddr = 0 // GCN3 FLAT has no SADDR / OFFSET fields: the bits are zero
@@ -1135,6 +1148,9 @@ func (g *gen) genC03(scale int, only map[string]bool) {
 					}
 					vt := vtAt(d, i)
 					kinds := []int{8, 7}
+					if vt == 't' {
+						kinds = []int{7} // shift amounts outside 0..4 are outside the documented domain
+					}
 					if vt == 'f' || vt == 'd' || vt == 'p' {
 						kinds = []int{6, 7}
 					}
@@ -1222,38 +1238,6 @@ func (g *gen) genC03(scale int, only map[string]bool) {
 	}
 }
 
-// genSpecialSrc: 32-bit reads of the halves of VCC / EXEC as scalar sources (kept apart from the
-// main batch: they exercise the operand resolution of the register store rather than the ALU).
-func (g *gen) genSpecialSrc(scale int) {
-	for _, d := range buildTable() {
-		if d.f != "SOP2" || d.aw != 32 || d.bw != 32 || d.cls != "ref" {
-			continue
-		}
-		if d.op != 0 && d.op != 7 && d.op != 30 && d.op != 12 {
-			continue
-		}
-		for _, arch := range archs(d) {
-			for k := 0; k < 6*scale; k++ {
-				st := "emu"
-				if k%3 == 2 {
-					st = "timing"
-				}
-				c := g.newCase(arch, st, d)
-				c.Tag = "special_src"
-				a := val(g.r, 32, 'i', -1)
-				b := val(g.r, 32, vtAt(d, 1), -1)
-				s0 := g.scalarSrc(c, "s0", 32, 'i', a, 8, false, 3+k%2)
-				s1 := g.scalarSrc(c, "s1", 32, 'i', b, 10, false, 0)
-				c.VCC |= uint64(g.r.Uint32()|1) << 32
-				c.EXEC |= uint64(g.r.Uint32()|1) << 32
-				c.Ops["d"] = OpLog{C: 20, N: 1}
-				c.Enc = encSOP2(d.op, 20, s0, s1, nil)
-				g.cases = append(g.cases, c)
-			}
-		}
-	}
-}
-
 func itoa(i int) string { return strconv.Itoa(i) }
 
 // genC06: for every vector handler (with or without a reference) pairs of a
@@ -1280,6 +1264,13 @@ func (g *gen) genC06(scale int, only map[string]bool) {
 					}
 				}
 				c.Tag = d.cls
+				if d.f != "DS" && d.f != "FLAT" {
+					// lane 0 takes part (handlers that treat lane 0 or bit 0 specially are exposed by the permutation)
+					c.EXEC |= 1
+					if has(d.flag, "vccin") {
+						c.VCC |= 1
+					}
+				}
 				// the old destination contents take part in the permutation
 				if dl, ok := c.Ops["d"]; ok && dl.C >= 256 {
 					for i := 0; i < dl.N; i++ {
@@ -1289,9 +1280,53 @@ func (g *gen) genC06(scale int, only map[string]bool) {
 					}
 				}
 				g.cases = append(g.cases, c)
-				t := permuteCase(c, g.r.Perm(nLane), g.nextID)
+				perm := g.r.Perm(nLane)
+				for perm[0] == 0 {
+					perm = g.r.Perm(nLane)
+				}
+				t := permuteCase(c, perm, g.nextID)
 				g.nextID++
 				g.cases = append(g.cases, t)
+			}
+			// lanes 2j and 2j+1 carry identical inputs: their results must be identical
+			if d.f != "DS" && d.f != "FLAT" {
+				for k := 0; k < scale; k++ {
+					c := g.one(arch, "emu", d, -1, -1, -1)
+					c.Tag = "dup"
+					c.EXEC = g.r.Uint64() | g.r.Uint64()
+					if dl, ok := c.Ops["d"]; ok && dl.C >= 256 {
+						for i := 0; i < dl.N; i++ {
+							if _, set := c.V[dl.C-256+i]; !set {
+								g.setV(c, dl.C-256+i, 32, g.randLanes(32, 'i'))
+							}
+						}
+					}
+					dupBits := func(x uint64) uint64 {
+						e := x & 0x5555555555555555
+						return e | e<<1
+					}
+					for _, vs := range c.V {
+						for l := 0; l < nLane; l += 2 {
+							vs[l+1] = vs[l]
+						}
+					}
+					c.VCC = dupBits(c.VCC)
+					for _, key := range []string{"s0", "s1", "s2"} {
+						if l, ok := c.Ops[key]; ok && l.C <= 101 && l.N == 2 && c.Fld["mask_"+key] == 1 {
+							v := dupBits(uint64(c.S[l.C]) | uint64(c.S[l.C+1])<<32)
+							c.S[l.C], c.S[l.C+1] = uint32(v), uint32(v>>32)
+						}
+					}
+					g.cases = append(g.cases, c)
+					// keep the log in pairs (the twin slot repeats the case unpermuted)
+					id := make([]int, nLane)
+					for i := range id {
+						id[i] = i
+					}
+					t := permuteCase(c, id, g.nextID)
+					g.nextID++
+					g.cases = append(g.cases, t)
+				}
 			}
 		}
 	}
